@@ -279,6 +279,12 @@ def insert(field, out, intensity=False, weight=1):
         out_cmin = int(field_shifted_ul[1])
         out_cmax = int(field_shifted_ul[1] + field_shape[1])
 
+        # nothing to do if the shifted field lies entirely outside of out
+        # (negative slice stops would otherwise wrap around)
+        if (out_rmax <= 0 or out_cmax <= 0 or
+                out_rmin >= out_shape[0] or out_cmin >= out_shape[1]):
+            return out
+
         # reconcile the field and output insertion indices
         if out_rmin < 0:
             field_rmin = -1 * out_rmin
